@@ -42,7 +42,13 @@ def rule_lay(run):
         # (2) what the library computes from it
         self_obj = Obj()
         self_obj.attrs['specification'] = dict((k, [list(v[0]), list(v[1])]) for k, v in tab.items())
-        it = Interp({'self': self_obj})
+        # module-level helpers and other methods of the class may be called by the routine (an extracted helper)
+        modfuncs = dict((f.name, f.node) for f in prog.mod('fixed_format_file').functions.values())
+        it = Interp({'self': self_obj}, funcs=modfuncs)
+        if fn.cls is not None:
+            self_obj.attrs['__methods__'] = dict(
+                (mn, (lambda node: (lambda *a, **k: it.call_function(node, [self_obj] + list(a), k)))(m.node))
+                for mn, m in fn.cls.methods.items() if mn != fn.name)
         try:
             it.block(fn.node.body)
         except AnalysisError as e:
